@@ -174,13 +174,14 @@ ROUTINES = {("reg", "size"): lambda b: "size_reg_code", ("reg", "ord"): lambda b
             ("stack", "tstdlib_label_local_memcpy_reg"): lambda b: "(memcpy_code %d)" % b,
             # chr calls malloc: its instruction list depends on where malloc is loaded
             ("reg", "chr"): lambda b, mb: "(chr_reg_code %d)" % mb,
-            ("stack", "chr"): lambda b, mb: "(chr_stack_code %d)" % mb}
+            ("stack", "chr"): lambda b, mb: "(chr_stack_code %d)" % mb,
+            ("stack", "tstrcmp"): lambda b: "(tstrcmp_stack_code %d)" % b}
 RHEADER = """From Coq Require Import ZArith List.
 From Hera.Lib Require Import Py Machine.
 From Hera.Gen Require Import Ops.
 From Hera.Spec Require Import ISA.
 From Hera.Model Require Import InstrOf.
-From Hera.Proofs Require Import C19_Routines C19_Not C19_Stack C19_NotStack C19_Malloc C19_MallocStack C19_Memcpy C19_Chr C19_ChrStack.
+From Hera.Proofs Require Import C19_Routines C19_Not C19_Stack C19_NotStack C19_Malloc C19_MallocStack C19_Memcpy C19_Chr C19_ChrStack C19_StrcmpStack.
 Import ListNotations.
 Open Scope Z_scope.
 Definition keyof (p : opname * list Z) : list Z := match instr_of (fst p) (snd p) with Some i => instr_key i | None => [] end.
